@@ -21,7 +21,7 @@ pub fn property() -> Property {
     Property {
         id: "C07",
         level: "exploration",
-        rule: "family `codec` (Lab-M): destinations (IPv4 octet classes; IPv6 ::, ::1, v4-mapped, full, zero runs; names of 1, 2, 63, 64, 253, 254, 255 bytes in LDH and UTF-8, names > 255 bytes which must be refused, names that look like addresses; ports 0, 1, 80, 255, 256, 443, 65535, random) through the real Client::create_proxy_stream on an in-memory session, a fragmenting pipe and the real server-side destination parser (H5), and reference-encoded destinations split across data frames at every position into the same parser; the client's bytes are also decoded by the reference. Family `resolve`: histories of resolve_host_with_cache(H, P) against a fake DNS (names with 1-3 loopback addresses, same host with other ports, other hosts, literal IPs, cache ageing within and beyond the TTL via H7). Family `dial` (Lab-S): request histories by name through the SOCKS5 front-end, real client and real server to listeners on distinct loopback addresses and ports. Non-trivial = one host requested with >= 2 ports inside the TTL, a name >= 254 bytes, an IPv6 destination, or a header split inside the address. Distinct = distinct serialized case.",
+        rule: "family `codec` (Lab-M): destinations (IPv4 octet classes; IPv6 ::, ::1, v4-mapped, full, zero runs; names of 1, 2, 63, 64, 253, 254, 255 bytes in LDH and UTF-8, names > 255 bytes which must be refused, names that look like addresses; ports 0, 1, 80, 255, 256, 443, 65535, random) through the real Client::create_proxy_stream on an in-memory session, a fragmenting pipe and the real server-side destination parser (H5), and reference-encoded destinations split across data frames at every position into the same parser; the client's bytes are also decoded by the reference. Family `resolve`: histories of resolve_host_with_cache(H, P) against a fake DNS (names with 1-3 loopback addresses, same host with other ports, other hosts, literal IPs, cache ageing within and beyond the TTL via H7). Family `dial` (Lab-S): request histories by name through the SOCKS5 front-end or the HTTP front-end (CONNECT, origin-form with Host and a URL of another listener in the query, absolute-form with '@other:port' in the path), real client and real server to listeners on distinct loopback addresses and ports. Non-trivial = one host requested with >= 2 ports inside the TTL, a name >= 254 bytes, an IPv6 destination, or a header split inside the address. Distinct = distinct serialized case.",
         assumptions: vec![
             "reference SOCKS address codec in this module; fake DNS in harness/src/lab_sock/dns.rs installed through the crate's public set_custom_dns_servers",
             "H7 ages cache entries (the cache uses std::time::Instant)",
@@ -487,6 +487,10 @@ pub struct DialCase {
     /// requests: (name index 0/1, listener index 0/1 on that name's address)
     pub reqs: Vec<(bool, bool)>,
     pub age_after: Option<(u8, u16)>,
+    /// per request: 0 = SOCKS5, 1 = HTTP CONNECT, 2 = HTTP GET in origin-form (destination in the Host
+    /// header, a URL of the *other* name in the query), 3 = HTTP GET in absolute-form
+    #[serde(default)]
+    pub via: Vec<u8>,
 }
 
 pub struct DialFam;
@@ -497,8 +501,8 @@ impl Family for DialFam {
         "dial"
     }
     fn strategy(&self, _tier: Tier) -> BoxedStrategy<DialCase> {
-        (proptest::collection::vec((any::<bool>(), any::<bool>()), 2..7), proptest::option::of((0u8..6, prop_oneof![Just(30u16), Just(61)])))
-            .prop_map(|(reqs, age_after)| DialCase { reqs, age_after })
+        (proptest::collection::vec((any::<bool>(), any::<bool>()), 2..7), proptest::option::of((0u8..6, prop_oneof![Just(30u16), Just(61)])), proptest::collection::vec(0u8..4, 7))
+            .prop_map(|(reqs, age_after, via)| DialCase { reqs, age_after, via })
             .boxed()
     }
     fn case_budget_s(&self) -> u64 {
@@ -530,20 +534,46 @@ impl Family for DialFam {
                     let target = &t[ni][li];
                     let before: Vec<usize> = t.iter().flatten().map(|x| x.n_conns()).collect();
                     let dest = Dest::Name(name.clone(), target.addr.port());
-                    let mut s = match socks5_connect(w.socks, &dest).await {
-                        Ok(s) => s,
-                        Err(e) => {
-                            return Err(Fail::plain(
-                                "C07.dial",
-                                format!("request #{k} for {name}:{} was refused (reply {:?}) although a listener is bound there; earlier requests: {:?}", target.addr.port(), e, &case.reqs[..k]),
-                            ));
-                        }
+                    let via = case.via.get(k).copied().unwrap_or(0) % 4;
+                    let other = if ni == 0 { &name_b } else { &name_a };
+                    let other_port = t[1 - ni][li].addr.port();
+                    let how = ["SOCKS5", "HTTP CONNECT", "HTTP GET (origin-form + Host)", "HTTP GET (absolute-form)"][via as usize];
+                    let refused = |e: String| {
+                        Fail::plain(
+                            "C07.dial",
+                            format!("request #{k} via {how} for {name}:{} failed ({e}) although a listener is bound there; earlier requests: {:?}", target.addr.port(), &case.reqs[..k]),
+                        )
                     };
-                    let msg = format!("req{k}");
-                    s.write_all(msg.as_bytes()).await.map_err(|e| Fail::plain("C07.dial", format!("tunnel write: {e}")))?;
-                    let mut b = vec![0u8; msg.len()];
-                    let ok = tokio::time::timeout(Duration::from_secs(10), s.read_exact(&mut b)).await;
-                    ensure!(matches!(ok, Ok(Ok(_))) && b == msg.as_bytes(), "C07.dial", "request #{k}: no echo through the tunnel");
+                    match via {
+                        0 | 1 => {
+                            let mut s = if via == 0 {
+                                socks5_connect(w.socks, &dest).await.map_err(|e| refused(format!("reply {:?}", e)))?
+                            } else {
+                                crate::props::e2e::http_connect(w.http, &format!("{name}:{}", target.addr.port()), b"").await.map_err(refused)?.0
+                            };
+                            let msg = format!("req{k}");
+                            s.write_all(msg.as_bytes()).await.map_err(|e| Fail::plain("C07.dial", format!("tunnel write: {e}")))?;
+                            let mut b = vec![0u8; msg.len()];
+                            let ok = tokio::time::timeout(Duration::from_secs(10), s.read_exact(&mut b)).await;
+                            ensure!(matches!(ok, Ok(Ok(_))) && b == msg.as_bytes(), "C07.dial", "request #{k}: no echo through the tunnel");
+                        }
+                        _ => {
+                            // the origin is an echo target: it sends the forwarded request back
+                            let mut s = tokio::net::TcpStream::connect(w.http).await.map_err(|e| infra(format!("connect to the HTTP listener: {e}")))?;
+                            let req = if via == 2 {
+                                format!("GET /login?next=http://{other}:{other_port}/cb&k={k} HTTP/1.1\r\nHost: {name}:{}\r\nAccept: */*\r\n\r\n", target.addr.port())
+                            } else {
+                                format!("GET http://{name}:{}/p/@{other}:{other_port}?k={k} HTTP/1.1\r\nAccept: */*\r\n\r\n", target.addr.port())
+                            };
+                            s.write_all(req.as_bytes()).await.map_err(|e| Fail::plain("C07.dial", format!("write: {e}")))?;
+                            let mut b = vec![0u8; 12];
+                            let ok = tokio::time::timeout(Duration::from_secs(10), s.read_exact(&mut b)).await;
+                            ensure!(matches!(ok, Ok(Ok(_))), "C07.dial", "request #{k} via {how} for {name}:{}: nothing came back from the origin", target.addr.port());
+                            if b.starts_with(b"HTTP/1.1 502") {
+                                return Err(refused("502".into()));
+                            }
+                        }
+                    }
                     let flat: Vec<&TcpTarget> = t.iter().flatten().collect();
                     let want = ni * 2 + li;
                     wait_until(3000, || flat[want].n_conns() > before[want]).await;
@@ -555,7 +585,7 @@ impl Family for DialFam {
                             ensure!(
                                 got == 0,
                                 "C07.dial",
-                                "request #{k} for {name}:{} was dialled at {} (earlier requests: {:?})",
+                                "request #{k} via {how} for {name}:{} was dialled at {} (earlier requests: {:?})",
                                 target.addr.port(),
                                 x.addr,
                                 &case.reqs[..k]
@@ -588,6 +618,10 @@ impl Family for DialFam {
         out.nt(multi);
         out.class_if(multi, "same-host-other-port-in-ttl");
         out.class_if(case.age_after.is_some(), "cache-aged");
+        let vias: Vec<u8> = (0..case.reqs.len()).map(|k| case.via.get(k).copied().unwrap_or(0) % 4).collect();
+        out.class_if(vias.contains(&1), "via-http-connect");
+        out.class_if(vias.contains(&2), "via-http-origin-form+url-in-query");
+        out.class_if(vias.contains(&3), "via-http-absolute-form");
         Ok(out)
     }
 }
